@@ -331,10 +331,9 @@ theorem C06_reorder_mass (grids : List (Array ℚ)) (P : Dens) (hd : P.shape.len
 example : let g1 : Array ℚ := #[0, 1/4, 1]
     let g2 : Array ℚ := #[0, 1]
     let P : Dens := ⟨[3, 2], fun i => ((i.getD 0 0 + 3 * i.getD 1 0 + 1 : ℕ) : ℚ)⟩
-    ∃ Q, reorderPops [2, 1] P = some Q ∧ totalMass [g2, g1] Q = totalMass [g1, g2] P ∧ totalMass [g1, g2] P = 25 / 8 ∧
-      Q.f [1, 2] ≠ P.f [1, 2] := by
-  refine ⟨reorderAxes [1, 0] ⟨[3, 2], fun i => ((i.getD 0 0 + 3 * i.getD 1 0 + 1 : ℕ) : ℚ)⟩, by decide +kernel, by decide +kernel,
-    by decide +kernel, by decide +kernel⟩
+    (reorderPops [2, 1] P).map (fun Q => totalMass [g2, g1] Q) = some (15 / 4) ∧ totalMass [g1, g2] P = 15 / 4 ∧
+      (reorderPops [2, 1] P).map (fun Q => Q.f [1, 2]) = some (P.f [2, 1]) ∧ P.f [2, 1] ≠ P.f [1, 2] := by
+  decide +kernel
 
 /-- Removing a population preserves the total mass (`remove_pop` with the removed population's grid; `filter_pops`, whose
     signature has ONE grid for all populations, whenever it does not raise). -/
@@ -375,8 +374,8 @@ theorem C06_pulse_mass (grids : List (Array ℚ)) (dest : ℕ) (f : List ℚ) (P
 
 example : let g : Array ℚ := #[0, 1/4, 1]
     let P : Dens := ⟨[3, 3], fun i => ((i.getD 0 0 + 2 * i.getD 1 0 + 1 : ℕ) : ℚ)⟩
-    totalMass [g, g] P = 21 / 8 ∧ totalMass [g, g] (pulse [g, g] 0 [1/3] P) = 21 / 8 ∧
-    totalMass [g, g, g] (newPop [g, g] g [1/3] P) = 21 / 8 := by
+    totalMass [g, g] P = 19 / 4 ∧ totalMass [g, g] (pulse [g, g] 0 [1/3] P) = 19 / 4 ∧
+    totalMass [g, g, g] (newPop [g, g] g [1/3] P) = 19 / 4 := by
   decide +kernel
 
 /-! ## the new / the destination population carries the parental mixture frequency, any number of parents -/
